@@ -7,6 +7,8 @@ import (
 	"errors"
 	"fmt"
 	"io"
+	"net"
+	"strings"
 	"sync"
 	"syscall"
 	"testing"
@@ -20,7 +22,8 @@ import (
 
 // C20: the receiver under every sequence of read outcomes.
 //
-// Script symbols: F frame, P frame whose processing fails, A EAGAIN, T timeout net.Error, R ECONNRESET,
+// Script symbols: F frame, P frame whose processing fails, Q frame whose processing fails with an error VALUE that the
+// read side would classify as transient or terminal (io.EOF, EBADF, EAGAIN, a timeout net.Error, ...), A EAGAIN, T timeout net.Error, R ECONNRESET,
 // U unknown error; terminals: E io.EOF, X io.ErrUnexpectedEOF, C io.ErrClosedPipe, B EBADF, Z "use of closed file".
 // Cancel >= 0: the context is cancelled synchronously inside read call number Cancel (0-based).
 
@@ -28,6 +31,8 @@ type c20Case struct {
 	Script    string `json:"script"`
 	Cancel    int    `json:"cancel_in_read"` // -1: no cancellation (script must end with a terminal)
 	LazyMs    int    `json:"consumer_starts_after_ms"`
+	PauseAt   int    `json:"consumer_pauses_after_n_errors,omitempty"`
+	PauseMs   int    `json:"consumer_pause_ms,omitempty"`
 	Unbounded bool   `json:"-"`
 }
 
@@ -69,7 +74,7 @@ func (r *c20Reader) ReadPacketData() ([]byte, *gopacket.CaptureInfo, error) {
 		return nil, nil, syscall.EBADF
 	}
 	switch r.script[i] {
-	case 'F', 'P':
+	case 'F', 'P', 'Q':
 		// zero-copy ring: the same buffer is reused, the previous content is destroyed
 		for k := range r.buf {
 			r.buf[k] = 0xA5
@@ -109,13 +114,13 @@ type c20Proc struct {
 func (p *c20Proc) ProcessPacketData(data []byte, ci *gopacket.CaptureInfo) error {
 	p.mu.Lock()
 	defer p.mu.Unlock()
-	if len(data) != 4 || data[3] != 0xEE || (data[0] != 'F' && data[0] != 'P') {
+	if len(data) != 4 || data[3] != 0xEE || (data[0] != 'F' && data[0] != 'P' && data[0] != 'Q') {
 		p.bad = append(p.bad, fmt.Sprintf("%x", data))
 		return nil
 	}
 	i := int(data[1])<<8 | int(data[2])
 	p.seen = append(p.seen, i)
-	if data[0] == 'P' {
+	if data[0] == 'P' || data[0] == 'Q' {
 		return p.errs[i]
 	}
 	return nil
@@ -164,6 +169,10 @@ func c20Check(c c20Case) *kit.Verdict {
 			}
 		case 'P':
 			pr.errs[i] = fmt.Errorf("processing failure #%d", i)
+		case 'Q':
+			// a processing error is a processing error whatever its value: reported, never retried, never terminal
+			pr.errs[i] = []error{io.EOF, io.ErrUnexpectedEOF, syscall.EBADF, syscall.EAGAIN, c20Timeout{i}, io.ErrClosedPipe,
+				&net.OpError{Op: "write", Err: syscall.ECONNRESET}, errors.New("write udp: use of closed file")}[i%8]
 		}
 	}
 	errc := NewReceiver(rd, pr).ReceivePackets(ctx)
@@ -176,6 +185,9 @@ func c20Check(c c20Case) *kit.Verdict {
 		}
 		for e := range errc {
 			got = append(got, e)
+			if c.PauseMs > 0 && len(got) == c.PauseAt {
+				time.Sleep(time.Duration(c.PauseMs) * time.Millisecond)
+			}
 		}
 	}()
 	limit := 20*time.Second + time.Duration(nU)*50*time.Millisecond
@@ -203,7 +215,7 @@ func c20Check(c c20Case) *kit.Verdict {
 		switch c.Script[i] {
 		case 'F':
 			wantFrames = append(wantFrames, i)
-		case 'P':
+		case 'P', 'Q':
 			wantFrames = append(wantFrames, i)
 			wantErrs = append(wantErrs, pr.errs[i])
 		case 'U':
@@ -221,7 +233,7 @@ func c20Check(c c20Case) *kit.Verdict {
 			return v.Failf("script %q: %d errors reported %v, expected %d %v", c.Script, len(got), got, len(wantErrs), wantErrs)
 		}
 		for i := range got {
-			if got[i] != wantErrs[i] {
+			if !c20SameErr(got[i], wantErrs[i]) {
 				return v.Failf("script %q: error %d is %v, expected %v", c.Script, i, got[i], wantErrs[i])
 			}
 		}
@@ -244,7 +256,7 @@ func c20Check(c c20Case) *kit.Verdict {
 		return v.Failf("script %q cancel in read %d: errors %v, expected at least %v", c.Script, c.Cancel, got, wantErrs)
 	}
 	for i := range wantErrs {
-		if got[i] != wantErrs[i] {
+		if !c20SameErr(got[i], wantErrs[i]) {
 			return v.Failf("script %q cancel in read %d: error %d is %v, expected %v", c.Script, c.Cancel, i, got[i], wantErrs[i])
 		}
 	}
@@ -254,14 +266,19 @@ func c20Check(c c20Case) *kit.Verdict {
 	return v
 }
 
-const c20Alphabet = "FPATRU"
+// the reported error is the failure itself or an annotation of it (wrapping is not a violation)
+func c20SameErr(got, want error) bool {
+	return got == want || errors.Is(got, want) || (got != nil && strings.Contains(got.Error(), want.Error()))
+}
+
+const c20Alphabet = "FPQATRU"
 const c20Terminals = "EXCBZ"
 
 func TestC20Random(t *testing.T) {
 	maxU := kit.EnvInt("C20_MAXU", 12)
 	kit.Run(t, kit.Spec[c20Case]{
 		Prop: "C20",
-		Rule: "random scripts over {F,P,A,T,R,U} of length 0..300 (bursts of >100 reported errors with a consumer that starts late), ended by a terminal from {EOF,ErrUnexpectedEOF,ErrClosedPipe,EBADF,'use of closed file'} or cancelled inside a drawn read call; scripted zero-copy reader, recording processor; oracle = reference state machine (frames before the end processed once in order, U and P errors once each in order, transients invisible, exactly end+1 reads, channel closes). non-trivial: length>=3; distinct by case",
+		Rule: "random scripts over {F,P,Q,A,T,R,U} of length 0..300 (bursts of >100 reported errors with a consumer that starts late), ended by a terminal from {EOF,ErrUnexpectedEOF,ErrClosedPipe,EBADF,'use of closed file'} or cancelled inside a drawn read call; scripted zero-copy reader, recording processor; oracle = reference state machine (frames before the end processed once in order, U and P errors once each in order, transients invisible, exactly end+1 reads, channel closes). non-trivial: length>=3; distinct by case",
 		Gen: func(t *rapid.T) c20Case {
 			var n int
 			switch rapid.IntRange(0, 3).Draw(t, "size") {
@@ -278,7 +295,7 @@ func TestC20Random(t *testing.T) {
 			for i := 0; i < n; i++ {
 				s := c20Alphabet[kit.Uniform(t, "sym", len(c20Alphabet))]
 				if heavyP && kit.Uniform(t, "p", 3) > 0 {
-					s = 'P'
+					s = "PPQ"[kit.Uniform(t, "pq", 3)]
 				}
 				if s == 'U' {
 					if u >= maxU {
@@ -299,12 +316,17 @@ func TestC20Random(t *testing.T) {
 				// trailing material after the terminal must never be read
 				tail := rapid.IntRange(0, 3).Draw(t, "tail")
 				for i := 0; i < tail; i++ {
-					b = append(b, "FP"[kit.Uniform(t, "tailsym", 2)])
+					b = append(b, "FPQ"[kit.Uniform(t, "tailsym", 3)])
 				}
 			}
 			c.Script = string(b)
 			if heavyP && n > 100 {
-				c.LazyMs = rapid.IntRange(0, 30).Draw(t, "lazy")
+				// a consumer that is late, or stalls in the middle of a burst beyond the 100-slot buffer
+				c.LazyMs = rapid.SampledFrom([]int{0, 0, 5, 30, 120}).Draw(t, "lazy")
+				if rapid.Bool().Draw(t, "pause") {
+					c.PauseAt = rapid.IntRange(1, 60).Draw(t, "pause-at")
+					c.PauseMs = rapid.SampledFrom([]int{5, 40, 150}).Draw(t, "pause-ms")
+				}
 			}
 			return c
 		},
@@ -316,7 +338,7 @@ func TestC20Random(t *testing.T) {
 // cancellation inside every read call.
 func TestC20Exhaustive(t *testing.T) {
 	L := kit.EnvInt("C20_LEN", 3)
-	m := kit.NewManual(t, "C20", fmt.Sprintf("bounded-exhaustive: all scripts over {F,P,A,T,R,U} of length 0..%d x (each of the 5 terminals, and cancellation inside each read call 0..len); same oracle as TestC20Random. non-trivial: length>=3 (incl. terminal); distinct by case", L))
+	m := kit.NewManual(t, "C20", fmt.Sprintf("bounded-exhaustive: all scripts over {F,P,Q,A,T,R,U} of length 0..%d x (each of the 5 terminals, and cancellation inside each read call 0..len); same oracle as TestC20Random. non-trivial: length>=3 (incl. terminal); distinct by case", L))
 	var cases []c20Case
 	var rec func(prefix string)
 	rec = func(prefix string) {
